@@ -434,7 +434,16 @@ def d6(cx: Cx, ob: Ob) -> None:
                 ("bin", "-", ("call", ("builtin", "set"), (("call", ("attr", d, "values"), (), ()),), ()), ("call", ("builtin", "set"), (d,), ())),
                 ("bin", "-", ("call", ("builtin", "set"), (("call", ("attr", d, "values"), (), ()),), ()), ("call", ("attr", d, "keys"), (), ())),
             ]
-            if op(test) == "cmp" and test[1] == "in" and test[2] == v and test[3] in no_out:
+            def is_no_out(x):
+                """{w for w in d.values() if w not in d}: the set difference written as a comprehension."""
+                if x in no_out:
+                    return True
+                if op(x) == "comp" and x[1] == "set" and len(x[3]) == 1:
+                    w, src, cf = x[3][0]
+                    return x[2] == w and src == ("call", ("attr", d, "values"), (), ()) and len(cf) == 1 and cf[0] in (("cmp", "not in", w, d), ("cmp", "not in", w, ("call", ("attr", d, "keys"), (), ())))
+                return False
+
+            if op(test) == "cmp" and test[1] == "in" and test[2] == v and is_no_out(test[3]):
                 pass
             elif op(test) == "cmp" and test[1] == "not in" and test[2] == v and test[3] in (d, ("call", ("attr", d, "keys"), (), ())):
                 pass
